@@ -364,6 +364,24 @@ func runC18(ctx *Ctx) {
 					}
 				}
 			}
+			// model-free monitor: the agent asks for exactly the shortfall against its target
+			if !rd.NodeErr && !rd.UpdErr && (err == nil || askedPeersOf(poolCalls)) {
+				need := target - len(rd.Active)
+				asked := -1
+				for _, c := range poolCalls {
+					var num int
+					var k string
+					if n, _ := fmt.Sscanf(c, "peer %d %s", &num, &k); n >= 1 {
+						asked = num
+					}
+				}
+				if need > 0 && asked != need && !(rd.DropErr && asked == -1) {
+					mon = append(mon, fmt.Sprintf("c18-shortfall-request: target %d, the pool lists %d active peers: the agent should request %d more, it requested %d (-1: none)", target, len(rd.Active), need, asked))
+				}
+				if need <= 0 && asked != -1 {
+					mon = append(mon, fmt.Sprintf("c18-shortfall-request: target %d is met (the pool lists %d active peers), yet the agent requested %d more", target, len(rd.Active), asked))
+				}
+			}
 			// model-free monitor: the agent connects to every host the pool returned
 			askedPeers := false
 			for _, c := range poolCalls {
@@ -393,6 +411,15 @@ func runC18(ctx *Ctx) {
 		ctx.Count(fmt.Sprintf("strict:%v", strict))
 		ctx.Emit(Case{I: i, Kind: "rounds", Coq: coq, Desc: map[string]interface{}{"strict": strict, "target": target, "full_node": full, "kind": kind.String(), "rounds": rounds}, Monitor: mon})
 	})
+}
+
+func askedPeersOf(poolCalls []string) bool {
+	for _, c := range poolCalls {
+		if strings.HasPrefix(c, "peer ") {
+			return true
+		}
+	}
+	return false
 }
 
 func containsStr(l []string, s string) bool {
